@@ -104,6 +104,38 @@ def _symbolize_crash(stderr, variant):
             frames.append('%s@%s' % (ls[0], os.path.basename(ls[1].split(':')[0])))
     return frames
 
+_WAIT_HELPERS = ('svt_block_on_semaphore', 'svt_block_on_mutex', 'svt_wait_cond_var', 'svt_get_full_object', 'svt_get_empty_object', 'svt_get_full_object_non_blocking')
+def _deadlock_site(blocked, variant):
+    """wait-for signature of a decided deadlock: for every blocked task the library function that waits and what it waits for
+    (empty = a free pool object, full = a posted object, mutex/cond); worker tasks idling for input in their kernel loop are left out"""
+    addrs = []; idx = []
+    for t, s in blocked:
+        for a in s.split(','):
+            addrs.append(a); idx.append(t)
+    try:
+        p = subprocess.run([SYMBOLIZER, '--obj=' + binary(variant), '--functions=linkage', '--no-inlines', '--relative-address'] + addrs, capture_output=True, text=True, timeout=120)
+    except Exception:
+        return None, None
+    out = [b for b in p.stdout.split('\n\n') if b.strip()]
+    if len(out) != len(addrs):
+        return None, None
+    per = {}
+    for t, b in zip(idx, out):
+        ls = b.strip().split('\n')
+        if len(ls) >= 2 and '/Source/' in ls[1]:
+            per.setdefault(t, []).append(ls[0])
+    waits = []
+    for t, fr in sorted(per.items()):
+        prim = next((f for f in fr if f in _WAIT_HELPERS[3:]), None) or next((f for f in fr if f in _WAIT_HELPERS), '?')
+        waiter = next((f for f in fr if f not in _WAIT_HELPERS), '?')
+        kind = {'svt_get_empty_object': 'empty', 'svt_get_full_object': 'full', 'svt_block_on_mutex': 'mutex', 'svt_wait_cond_var': 'cond', 'svt_block_on_semaphore': 'sem'}.get(prim, prim)
+        if kind == 'full' and waiter.endswith('_kernel') and t != 0:
+            continue
+        waits.append('%s/%s' % (waiter, kind))
+    if not waits:
+        return None, None
+    return 'deadlock:' + '+'.join(sorted(set(waits))), ' '.join(waits)
+
 def run_case(case, variant='plain', timeout=None, keep=False):
     """Execute one simulated world in a fresh process.  Returns a result dict with at least
     outcome (class), detail, site, failures (oracle failures), ubsan (list of sites)."""
@@ -156,6 +188,10 @@ def run_case(case, variant='plain', timeout=None, keep=False):
         o = res.get('outcome', 'ok')
         if o != 'ok' and 'site' not in res:
             res['site'] = _site_of_detail(o, res.get('detail', ''))
+            if o == 'DEADLOCK' and res.get('blocked'):
+                site, waits = _deadlock_site(res.pop('blocked'), variant)
+                if site:
+                    res['site'] = site; res['detail'] = 'waits: %s | %s' % (waits, res.get('detail', ''))
     ub = []
     for m in UBSAN_RE.finditer(err):
         path = m.group(1)
@@ -249,7 +285,7 @@ def _pred_ok(pred, case):
 
 def match_known(v, known):
     for k in known.get('findings', []):
-        if k['property'] != v.prop:
+        if v.prop not in (k['property'] if isinstance(k['property'], list) else [k['property']]):
             continue
         if not re.fullmatch(k['class'], v.cls):
             continue
